@@ -26,7 +26,13 @@ def run_impl(case):
     bfeat = set(f for f in F if rnd.random() < .5)
     arb = wishbone.Arbiter(addr_width=aw, data_width=dw, granularity=gran, features=bfeat)
     intrs, ifeat, igran = [], [], []
+    rnd2 = lib.rng_for(case["seed"], case["idx"], 818)      # history variations, own stream
+    pre = 0
     for i in range(n):
+        if rnd2.random() < .08:
+            from amaranth.hdl import Fragment
+            Fragment.get(arb, None)        # an arbiter that was already elaborated still accepts initiators
+            pre += 1
         fs = set(f for f in F if rnd.random() < .5) | (bfeat & {"err", "rty"})
         g = rnd.choice([x for x in (8, 16, 32, 64) if gran <= x <= dw])
         it = wishbone.Interface(addr_width=aw, data_width=dw, granularity=g, features=fs)
@@ -36,12 +42,12 @@ def run_impl(case):
     lines = [f"case {n} {fbits(bfeat)} {bselw}"]
     for i in range(n):
         lines.append(f"intr {fbits(ifeat[i])} {igran[i] // gran} {dw // igran[i]}")
-    sim = Simulator(simutil.wrap(arb))
+    sim = simutil.simulator(simutil.wrap(arb), case)
     sim.add_clock(1e-6)
     obs, fails = [], []
     style = rnd.choice(["random", "starve", "lockhold", "sticky"])
     stats = {"cycles": 0, "handovers": 0, "busy_with_waiter": 0, "n": n, "lock_bus": int("lock" in bfeat), style: 1,
-             "free_with_waiter": 0}
+             "free_with_waiter": 0, "elaborated_before_add": pre}
     bus = arb.bus
 
     def opt(present, v):
